@@ -290,6 +290,7 @@ func streamCase(c *Ctx, r *runner, file []byte, origin string) {
 	if bare != line {
 		c.Violate("decode-vs-decodevp8l", "webp.Decode and lossless.DecodeVP8L disagree", map[string]any{"origin": origin, "file": hex.EncodeToString(file), "decode": line, "bare": bare})
 	}
+	replanCheck(c, r, hx, line, origin)
 	c.Case("dec "+tr.tag()+" "+hx, line)
 	c.D.Evaluations++
 	c.Count("stream:" + origin)
@@ -300,6 +301,26 @@ func streamCase(c *Ctx, r *runner, file []byte, origin string) {
 	c.Count(fmt.Sprintf("meta-bits:%d", tr.metaBits))
 	if tr.ok {
 		c.Nontrivial(origin + " " + tr.signature())
+	}
+}
+
+// replanCheck recovers the plan a stream is the emission of (extracted Vp8lTrace.trace_decode) and
+// checks it against the hypothesis of the proved theorem: wf_planb plan = true and emit plan = bytes.
+// When both hold, C03_emit_decode_checked says Spec.decode bytes = sem plan for these very bytes.
+func replanCheck(c *Ctx, r *runner, hx, goLine, origin string) {
+	ans := r.ask("replan " + hx)
+	f := strings.Fields(ans)
+	if len(f) < 3 || f[0] != "R" || f[1] == "ERR" {
+		c.Count("replan:" + origin + ":not-recovered")
+		return
+	}
+	if f[1] == "wf=1" && f[2] == "emit=1" {
+		c.Count("replan:" + origin + ":in-proved-fragment(wf_planb & byte-exact re-emission)")
+		if sem := strings.Join(f[3:], " "); sem != goLine {
+			c.Violate("sem-of-recovered-plan-vs-decode", "the pixels denoted by the plan recovered from a stream differ from what Decode returns", map[string]any{"origin": origin, "stream": hx, "sem": sem, "decode": goLine})
+		}
+	} else {
+		c.Count("replan:" + origin + ":outside-proved-fragment(" + f[1] + "," + f[2] + ")")
 	}
 }
 
@@ -372,17 +393,30 @@ func planCases(c *Ctx, r *runner) {
 	if v := os.Getenv("C03_PLANS"); v != "" { // experiments only
 		fmt.Sscan(v, &n)
 	}
+	cover := coverPlans(rng.Fork())
+	n += len(cover)
 	for i := 0; i < n; i++ {
 		md := maxDim
 		if i%4 != 0 {
 			md = 20 // most plans small: the feature space, not the pixel count, is what matters
 		}
-		p := genPlan(rng.Fork(), md)
+		var p *pplan
+		if i < len(cover) {
+			p = cover[i]
+			c.Count("plan:covering-plan")
+		} else {
+			p = genPlan(rng.Fork(), md)
+		}
 		txt := p.text()
 		ans := r.ask("emit " + txt)
 		if !strings.HasPrefix(ans, "H ") {
 			c.Violate("emitter-rejects-plan", "model emitter failed on a generated plan", map[string]any{"plan": txt, "answer": ans})
 			continue
+		}
+		if wf := r.ask("wf " + txt); wf != "W 1" {
+			c.Violate("generated-plan-not-wf", "a generated plan is rejected by the well-formedness checker under which emit_decode is proved", map[string]any{"plan": txt, "answer": wf})
+		} else {
+			c.Count("plan:accepted-by-wf_planb(emit_decode applies)")
 		}
 		payload, _ := hex.DecodeString(ans[2:])
 		file := riffWrap(payload)
@@ -409,6 +443,12 @@ func planCases(c *Ctx, r *runner) {
 			}
 			if c.D.Distribution == nil {
 				c.D.Distribution = map[string]int{}
+			}
+			if strings.HasPrefix(k, "max:") {
+				if v > c.D.Distribution["plan:"+k] {
+					c.D.Distribution["plan:"+k] = v
+				}
+				continue
 			}
 			c.D.Distribution["plan:"+k] += v
 		}
